@@ -121,13 +121,20 @@ Ltac same_tac s :=
         | fail 1 s ": the definition generated from the current Go source is not convertible to the hand-written model" ].
 Tactic Notation "same_as" ident(s) := same_tac s.
 
-(* split on every boolean the two sides branch on, then compare *)
+(* split on every atomic boolean the two sides branch on (descending through && || negb, so that
+   `a && negb b` and `b && negb a` are split on a and b, not as unrelated conditions), then compare *)
+Ltac cond_atom c :=
+  lazymatch c with
+  | andb ?a _ => cond_atom a
+  | orb ?a _ => cond_atom a
+  | negb ?a => cond_atom a
+  | _ => constr:(c)
+  end.
 Ltac split_ifs s :=
   cbv zeta;
   repeat (try reflexivity;
           match goal with
-          | |- context [if ?c then _ else _] =>
-              lazymatch c with false => fail | true => fail | negb ?d => destruct d | _ => destruct c end
+          | |- context [if ?c then _ else _] => let a := cond_atom c in destruct a
           end; cbn [negb andb orb]);
   same_tac s.
 Tactic Notation "by_cases" ident(s) := split_ifs s.
